@@ -187,6 +187,9 @@ func (r *reader) PrecendingCharacter() rune {
 			break
 		}
 	}
+	if i < 0 {
+		return rune('\n')
+	}
 	rn, _ := utf8.DecodeRune(r.source[i:])
 	return rn
 }
